@@ -517,6 +517,17 @@ class Privacy:
             if n in private:
                 private[n] = False
                 reason[n] = "public entry point: its scope argument is supplied by the caller"
+        # evaluator closures handed out by a public function (`pub fn build_..(..) -> Evaluator`) can be called by anybody with any scope
+        for t, clos in self.pool.items():
+            b = F.bodies.get(t)
+            if b is None or b.get("vis") != "pub" or b["kind"] == "closure":
+                continue
+            rt = F.crates[b["_crate"]]["types"][b["locals"][0]]
+            if "dyn " in rt and "Fn" in rt and "Scope" in rt:
+                for c in clos:
+                    if c in private and private[c]:
+                        private[c] = False
+                        reason[c] = "evaluator closure returned by the public function %s: callable with a caller-supplied scope" % t
         # edges: caller -> callee for sites passing the external scope at depth 0
         sites = []
         for n in touching:
